@@ -9,15 +9,19 @@
   OBLIGATION c03_resolver_error_witness
   OBLIGATION c03_list_path_witness
   OBLIGATION c03_iface_path_witness
+  OBLIGATION c03_full_needs_validity
   OBLIGATION c03_repeated_key_error_witness
-  OBLIGATION c03_full_refuted
+  OBLIGATION c03_repeated_key_error_repaired_example
   OBLIGATION c03_partial_nodup
   OBLIGATION c03_partial_nodup_example
   OPEN c03_fuelbound_full
+  OPEN c03_mergeable_full
 
-  `c03_full` (first formulation, no hypotheses) is REFUTED, on a valid document
-  (`c03_full_refuted`): a repeated response key whose later occurrence is nulled by a propagating
-  error keeps the earlier partial object.  Proved instead: `c03_partial_nodup`.
+  `c03_full` (first formulation, no hypotheses) is REFUTED (`c03_full_needs_validity`); restated with
+  the necessary hypotheses as `c03_mergeable_full` (open).  Proved: `c03_partial_nodup` (documents
+  without repeated response keys).  Fourth deviation of the pinned tree: a repeated response key whose
+  later occurrence is nulled by a propagating error keeps the earlier partial object
+  (`c03_repeated_key_error_witness`, toggle `mergeKeepsPartialOnNull`).
 -/
 import AGV.Lemmas.ExecStatic
 import AGV.Lemmas.ExecStaticData
@@ -25,7 +29,7 @@ import AGV.Lemmas.ExecStaticData
 namespace AGV.Props.C03
 open AGV.Core AGV.Model.ExecStatic AGV.Lemmas.ExecStatic AGV.Spec.Exec
 
-/-- First formulation (REFUTED below, `c03_full_refuted`; kept for the record): for every valid document and every world with faults, the model
+/-- First formulation (REFUTED below, `c03_full_needs_validity`; restated as `c03_mergeable_full`): for every valid document and every world with faults, the model
     without defects gives the specification's data, reports a sub-multiset of the
     specification's errors (siblings cancelled by a propagating error may stay silent), and
     exactly one error per resolver that ran and failed.  Checked per case by the judge. -/
@@ -127,29 +131,40 @@ theorem c03_iface_path_witness :
     (run Defects.none S0 (opOf selNode) none [] w0 10).errs = [⟨[.key "node", .key "req"], p0⟩] := by
   refine ⟨by rfl, by rfl⟩
 
--- ------------------------------------------------------------------ the full statement: refuted, and what holds
+-- ------------------------------------------------------------------ the full statement: refuted, restated, and what holds
+
+/-- `c03_full` as first stated (no validity hypothesis) is FALSE: for a field the type does not have
+    the model answers `{"zz": null}`, the specification skips the field (validation rejects such
+    documents before execution) -/
+theorem c03_full_needs_validity : ¬ c03_full := by
+  intro h
+  have h1 := (h S0 (opOf (Sel.field none "zz" [] [] [] p0)) none [] w0 3
+    (by simp [fuelBound, selCount, opOf])).1
+  have hm : (Model.ExecStatic.run Defects.none S0 (opOf (Sel.field none "zz" [] [] [] p0)) none [] w0 3).val =
+      some (.obj [("zz", .null)]) := by rfl
+  have hs : (AGV.Spec.Exec.run S0 (opOf (Sel.field none "zz" [] [] [] p0)) none [] w0 3).val = some (.obj []) := by rfl
+  rw [hm, hs] at h1
+  simp at h1
 
 /-- `{ node { __typename }  node { req } }` — a VALID document (both occurrences of the response key
     `node` name the same field without arguments) in the world where `req: Int!` fails -/
 def docRepeat : Doc := { ops := [{ ty := .query, name := none, vars := [], dirs := [], sels := [
   Sel.field none "node" [] [] [Sel.field none "__typename" [] [] [] p0] p0, selNode] }], frags := [] }
 
-/-- the model (like the real `merge_value`, whose `_ => {}` arm keeps the earlier value; reproduced on
-    the real executor, replays/C01/repeated-key-error.case) leaves the partial object of the first
-    occurrence in place although the error of the second occurrence nulled the nullable position
-    `node`; the specification answers `{"node": null}` -/
+/-- the pinned `merge_value` (its `_ => {}` arm keeps the earlier value; reproduced on the real executor,
+    corpus/C03/main-repeated-key-error.case) leaves the partial object of the first occurrence in place
+    although the error of the second occurrence nulled the nullable position `node`: the error does
+    NOT null the nearest nullable position.  The specification answers `{"node": null}`. -/
 theorem c03_repeated_key_error_witness :
-    (Model.ExecStatic.run Defects.none S0 docRepeat none [] w0 10).val =
+    (Model.ExecStatic.run { mergeKeepsPartialOnNull := true } S0 docRepeat none [] w0 10).val =
       some (.obj [("node", .obj [("__typename", .str "O")])]) ∧
     (AGV.Spec.Exec.run S0 docRepeat none [] w0 10).val = some (.obj [("node", .null)]) := by
   constructor <;> rfl
 
-/-- `c03_full` as stated is FALSE, even on valid documents: its data conjunct fails on `docRepeat` -/
-theorem c03_full_refuted : ¬ c03_full := by
-  intro h
-  have h1 := (h S0 docRepeat none [] w0 10 (by simp [fuelBound, selCount, docRepeat, selNode, selReq])).1
-  rw [c03_repeated_key_error_witness.1, c03_repeated_key_error_witness.2] at h1
-  simp at h1
+theorem c03_repeated_key_error_repaired_example :
+    (Model.ExecStatic.run Defects.none S0 docRepeat none [] w0 10).val = (AGV.Spec.Exec.run S0 docRepeat none [] w0 10).val ∧
+    (Model.ExecStatic.run Defects.none S0 docRepeat none [] w0 10).errs = (AGV.Spec.Exec.run S0 docRepeat none [] w0 10).errs := by
+  constructor <;> rfl
 
 open AGV.Lemmas.ExecStaticData in
 /-- What holds: for every schema, document, variables, world with arbitrary faults and every fuel, under
@@ -173,6 +188,22 @@ theorem c03_partial_nodup_example :
     ∀ e ∈ (Model.ExecStatic.run Defects.none Ex.S1 Ex.doc1 none [] Ex.w1 10).errs,
       e ∈ (AGV.Spec.Exec.run Ex.S1 Ex.doc1 none [] Ex.w1 10).errs :=
   c03_partial_nodup Ex.S1 Ex.doc1 none [] Ex.w1 10 Ex.runHyps
+
+open AGV.Lemmas.ExecStaticData in
+/-- OPEN — `c03_full` restated with the hypotheses found necessary (validity in the sense of
+    `mergeableKeys`: fields exist, occurrences of one response key name the same field with the same
+    arguments, recursively; consistent schema; inert directives; no `Int` leaf for `Float`): in every
+    world with faults the model without defects gives the specification's data and reports a subset
+    of its errors.  `c03_partial_nodup` is the case of distinct keys and explicit fuel. -/
+def c03_mergeable_full : Prop :=
+  ∀ (S : Schema) (d : Doc) (opName : Option String) (raw : List (String × GValue)) (w : World),
+    ∀ fuel ≥ fuelBound d,
+      (∀ op, selectOp d opName = some op →
+        IsObj S (rootOf S op) ∧ DataHyps (runCtx S d op raw w) ∧
+        selsInert (coerceVars op.vars raw) op.sels = true ∧
+        mergeableKeys (runCtx S d op raw w) fuel (rootOf S op) (rootOf S op) op.sels = true) →
+      (Model.ExecStatic.run Defects.none S d opName raw w fuel).val = (AGV.Spec.Exec.run S d opName raw w fuel).val ∧
+      ∀ e ∈ (Model.ExecStatic.run Defects.none S d opName raw w fuel).errs, e ∈ (AGV.Spec.Exec.run S d opName raw w fuel).errs
 
 open AGV.Lemmas.ExecStaticData in
 /-- OPEN: `c03_partial_nodup` with `deepEnough` replaced by the drivers' fuel bound (needs: fuel
